@@ -410,6 +410,9 @@ def plan_C18(run):
 def plan_C19(run):
     # design level: Bradley-Terry partial = full on every two-team game of the lattice
     mc.lattice(run, "bt-part-full", ["BTP"], q(run, ["default", "limit_call"], SETTINGS_ALL), 4, 2, invariants=["Inv_C19"], replay=False)
+    # the grammar of malformed (and well-formed) calls enumerated by TLC, the corresponding call on all five classes:
+    # accepted / rejected alike, with the same exception class
+    mc.grammar(run, "grammar-x5", ALL_KINDS, q(run, ["1-1"], ["1-1", "2-1", "1-1-2"]), group_models="C19")
     n = q(run, 80, 1500)
     campaign(run, "model-groups", {"C19"}, lambda s, r: drivers.model_groups(s, r, n))
     campaign(run, "api", {"C19"}, lambda s, r: drivers.api_groups(s))
